@@ -134,9 +134,9 @@ func init() {
 	delReach := []string{"empty-set", "negative-offset", "deleted-some", "head-emptied", "reader-segment-emptied", "head-rebased", "reader-segment-rebased", "head-tail-deleted"}
 	// C01: content fidelity across publish / delete / reopen
 	addProp(&Prop{ID: "C01", DesignRef: "DESIGN.md §4 C01, §3.5", Runs: []HarnessRun{
-		step("Publish", B{"segs": 2, "recs": 2, "vers": 2, "profs": 1, "paramsets": 2, "rmindex": 1, "batch": 2}, stepT, "rollover", "empty-batch", "empty-batch-with-rollover", "zero-time"),
+		step("Publish", B{"segs": 2, "recs": 2, "vers": 1, "profs": 1, "paramsets": 2, "rmindex": 1, "batch": 2}, stepT, "rollover", "empty-batch", "empty-batch-with-rollover", "zero-time"),
 		step("Delete", B{"segs": 2, "recs": 2, "vers": 1, "profs": 1, "paramsets": 2, "rmindex": 1, "deletes": 1}, stepT, "deleted-some", "head-emptied", "reader-segment-emptied", "head-rebased", "reader-segment-rebased"),
-		step("Reopen", B{"segs": 2, "recs": 2, "vers": 3, "profs": 1, "paramsets": 1, "rmindex": 2}, stepT, "eager-migrate", "readonly", "all-index-files-removed"),
+		step("Reopen", B{"segs": 2, "recs": 2, "vers": 2, "profs": 1, "paramsets": 1, "rmindex": 2}, stepT, "eager-migrate", "readonly", "all-index-files-removed"),
 	}, Assumptions: []string{"one inductive step from an arbitrary well-formed directory (DESIGN §3.2, §3.5); in-session chains longer than the harness performs are outside the claim",
 		"Check/Recover reopen with a time index only for non-decreasing, non-negative times"}})
 	// C02: offsets
@@ -147,10 +147,11 @@ func init() {
 	}})
 	// C11: index files are derived data
 	addProp(&Prop{ID: "C11", DesignRef: "DESIGN.md §4 C11", Runs: []HarnessRun{
-		step("Reopen", B{"segs": 2, "recs": 2, "vers": 2, "profs": 1, "paramsets": 4, "rmindex": 4}, stepT, "all-index-files-removed", "readonly"),
+		step("Reopen", B{"segs": 2, "recs": 1, "vers": 2, "profs": 1, "paramsets": 4, "rmindex": 4}, stepT, "all-index-files-removed", "readonly"),
 		step("Delete", B{"segs": 2, "recs": 2, "vers": 1, "profs": 1, "paramsets": 1, "rmindex": 2, "deletes": 1}, stepT, "deleted-some"),
 		step("Migrate", B{"segs": 2, "recs": 2, "vers": 3, "profs": 1, "paramsets": 2, "rmindex": 2}, stepT, "migrate"),
-		qKey, qTime,
+		{Name: qKey.Name, Quick: B{"quick_skip": 1}, Thorough: qKey.Thorough, Split: qKey.Split, Reach: qKey.Reach},
+		{Name: qTime.Name, Quick: B{"quick_skip": 1}, Thorough: qTime.Thorough, Split: qTime.Split, Reach: qTime.Reach},
 	}, Assumptions: []string{"index timestamps are compared with message times only when times never decrease with offset (and are not before 1970)"}})
 	// C17: migration and mixed versions
 	addProp(&Prop{ID: "C17", DesignRef: "DESIGN.md §4 C17", Runs: []HarnessRun{
@@ -159,7 +160,8 @@ func init() {
 		step("Delete", B{"segs": 2, "recs": 2, "vers": 4, "profs": 1, "paramsets": 1, "rmindex": 1, "deletes": 1}, stepT, "deleted-some", "head-rebased", "reader-segment-rebased"),
 		step("Publish", B{"segs": 2, "recs": 1, "vers": 4, "profs": 1, "paramsets": 1, "rmindex": 1, "batch": 1}, stepT, "rollover"),
 	}})
-	stepDelete := step("Delete", B{"segs": 2, "recs": 2, "vers": 2, "profs": 1, "paramsets": 1, "rmindex": 2, "deletes": 2}, stepT, delReach...)
+	stepDelete := step("Delete", B{"segs": 2, "recs": 2, "vers": 2, "profs": 1, "paramsets": 1, "rmindex": 2, "deletes": 1}, stepT, delReach...)
+	stepDelete2 := step("Delete", B{"segs": 2, "recs": 1, "vers": 1, "profs": 1, "paramsets": 1, "rmindex": 1, "deletes": 2}, B{"quick_skip": 0, "segs": 2, "recs": 2, "vers": 2, "profs": 1, "paramsets": 1, "rmindex": 1, "deletes": 3}, "deleted-some")
 	stepDelMulti := step("DeleteMulti", B{"segs": 2, "recs": 2, "vers": 2, "profs": 1, "paramsets": 2, "rmindex": 2}, stepT, "deletemulti", "everything-deleted")
 	// C14: damaged records
 	dmgB := B{"recs": 2, "profs": 1, "alloc_cap": 96, "conc_cap": 128, "max_alloc": 67108900}
@@ -173,8 +175,8 @@ func init() {
 	dirOver := HarnessRun{Name: "h_damage.DirOverwritten", Quick: B{"segs": 2, "recs": 1, "profs": 1, "alloc_cap": 96, "conc_cap": 128, "max_alloc": 67108900},
 		Thorough: B{"segs": 2, "recs": 2, "profs": 1, "alloc_cap": 128, "conc_cap": 160, "max_alloc": 67108900},
 		Split: []SplitDim{{"layout", numLayouts}, {"dseg", same("segs")}, {"region", regionN}, {"kind", two}}, Reach: []string{"dir-damaged"}}
-	dirTrunc := HarnessRun{Name: "h_damage.DirTruncated", Quick: B{"segs": 2, "recs": 2}, Thorough: B{"segs": 3, "recs": 2},
-		Split: []SplitDim{{"layout", numLayouts}, {"dseg", same("segs")}}, Reach: []string{"dir-truncated"}}
+	dirTrunc := HarnessRun{Name: "h_damage.DirTruncated", Quick: B{"segs": 2, "recs": 1}, Thorough: B{"segs": 2, "recs": 2},
+		Split: []SplitDim{{"layout", numLayouts}, {"dseg", same("segs")}, {"cutrec", same("recs")}, {"cutpart", two}}, Reach: []string{"dir-truncated", "cut-in-header", "cut-in-data"}}
 	addProp(&Prop{ID: "C14", DesignRef: "DESIGN.md §4 C14", Runs: []HarnessRun{readOver, readTrunc, dirOver, dirTrunc},
 		Assumptions: []string{"CRC32C is an uninterpreted function; a record whose bytes changed is assumed not to verify by an accidental checksum collision (probability 2^-32 per damaged record); what is decided is that every byte that can influence a returned field or the framing is covered by the checksum or compared explicitly and that no path returns data without those checks",
 			"allocation bound: every make() with a symbolic size is asserted to stay <= 64 MiB + 36 bytes",
@@ -183,7 +185,11 @@ func init() {
 	helpQ := B{"segs": 2, "recs": 2, "vers": 2, "profs": 1}
 	helpT := B{"segs": 3, "recs": 2, "vers": 3, "profs": 2}
 	help := func(name string, q, t B, reach ...string) HarnessRun {
-		return HarnessRun{Name: "h_helpers." + name, Quick: q, Thorough: t, Split: layoutSplit, Reach: reach}
+		sp := layoutSplit
+		if name == "Updates" || name == "Deletes" || name == "TrimAge" {
+			sp = append(append([]SplitDim{}, layoutSplit...), SplitDim{"mono", two})
+		}
+		return HarnessRun{Name: "h_helpers." + name, Quick: q, Thorough: t, Split: sp, Reach: reach}
 	}
 	addProp(&Prop{ID: "C15", DesignRef: "DESIGN.md §4 C15", Runs: []HarnessRun{
 		help("TrimOffset", helpQ, helpT, "newest", "oldest-or-negative", "inside"),
@@ -206,5 +212,5 @@ func init() {
 		{Name: "h_backup.Backup", Quick: B{"segs": 2, "recs": 2, "vers": 2, "profs": 1, "rounds": 1}, Thorough: B{"segs": 3, "recs": 2, "vers": 3, "profs": 2, "rounds": 2}, Split: layoutSplit,
 			Reach: []string{"log-backup", "dir-backup", "repeated-backup"}},
 	}, Assumptions: []string{"file modification times are arbitrary non-decreasing clock values (two writes may get the same mtime); Chtimes sets them exactly"}})
-	addProp(&Prop{ID: "C12", DesignRef: "DESIGN.md §4 C12", Runs: []HarnessRun{minOff, stepDelete, stepDelMulti}})
+	addProp(&Prop{ID: "C12", DesignRef: "DESIGN.md §4 C12", Runs: []HarnessRun{minOff, stepDelete, stepDelete2, stepDelMulti}})
 }
